@@ -183,7 +183,8 @@ pub fn check_value(v: &RVal, acc: &mut Acc, full: bool) {
             }
         }
         if full {
-            match guard(|| jsonb::parse_value(text.as_bytes()).map(|x| (x == to_value(v), x.to_vec()))) {
+            // equality under the crate's own `==`, with either side on the left
+            match guard(|| jsonb::parse_value(text.as_bytes()).map(|x| { let o = to_value(v); (x == o && o == x, x.to_vec()) })) {
                 Err(p) => acc.vio(&format!("{}:parse_value:{}", name, panic_class(&p)), ctx),
                 Ok(Err(e)) => acc.vio(&format!("{}:parse_value-rejects-own-rendering", name), || json!({"ctx": ctx(), "text": text, "err": format!("{:?}", e)})),
                 Ok(Ok((eq, re))) => {
